@@ -17,7 +17,7 @@ type c04 struct{}
 func init() { Props["C04"] = &c04{} }
 
 func (c *c04) Rule() string {
-	return "seeded histories: 1-4 tasks x 1-8 detections through Detect/DetectReader/DetectFile over pool-dirtying (valid, truncated, malformed, query-hitting, >128-deep, cap-deep JSON; NDJSON with a bad line; ragged and >4 KiB CSV), limit-sensitive, charset-bearing and binary inputs, tail-mutated twins (same header, different bytes beyond the limit), failing readers and shared and reused caller buffers (same address, new content), sibling inputs (same family and size, other variant), under a per-run limit (single-task runs also change the limit between calls) and a per-run pool policy (lifo/fifo/adversarial/steal) whose every Get decision is recorded; each result is compared with the same build's answer for that header from a fresh pool with no history. Non-trivial = a recycled pooled object was served during the run; distinct = distinct (operation shapes, pool decision sequence, schedule conflict signature) hashes"
+	return "first a systematic sweep: every entry of the repository's own sample table (one or more inputs per supported format) through Detect (private buffer with verdict-flipping spare capacity; cut at the limit with two continuations; reused buffer whose earlier result is inspected again), DetectReader and DetectFile under limits 3072/0/16/5/64, and (race build) two callers detecting every entry at once from shared buffers; then seeded histories: 1-4 tasks (crowd runs: 9-14) x 1-8 detections through Detect/DetectReader/DetectFile over pool-dirtying (valid, truncated, malformed, query-hitting, >128-deep, cap-deep JSON; NDJSON with a bad line; ragged and >4 KiB CSV), limit-sensitive, charset-bearing and binary inputs, tail-mutated twins (same header, different bytes beyond the limit), failing readers and shared and reused caller buffers (same address, new content), sibling inputs (same family and size, other variant), results kept by the caller and inspected again later (some handed to another task before any accessor was called), under a per-run limit up to 128 MiB (single-task runs also change the limit between calls) and a per-run pool policy (lifo/fifo/adversarial/steal) whose every Get decision is recorded; each result is compared with the same build's answer for that header from a fresh pool with no history. Non-trivial = a recycled pooled object was served during the run; distinct = distinct (operation shapes, pool decision sequence, schedule conflict signature) hashes"
 }
 
 var c04Limits = []uint32{3072, 3072, 3072, 0, 0, 1, 16, 64, 100, 1000, 4096, 8192, 70000}
